@@ -367,15 +367,21 @@ def gen_c15(engine, mode="mixed"):
                 if spec == "parent-send":
                     act = {"type": "xstate.sendParent", "params": {"event": {"type": "FROMCHILD", "tag": tg}}}
                 else:
-                    delay = rng.choice((None, None, 10, 20, 50))
+                    delay = rng.choice((None, None, 10, 20, 50, 0))
                     to = spec if rng.random() < 0.8 else {"$fn": {"k": "target", "name": "tgt", "v": spec}}
                     prm = {"to": to, "event": {"type": "PING", "tag": tg}}
+                    if delay == 0:
+                        prm["delay"] = 0   # a delay that resolves to 0 is an immediate send: same order as undelayed ones
+                        # followed at once by an undelayed send from the same sender to the same target (ordering)
+                        tg2 = new_tag()
+                        act2 = {"type": "xstate.sendTo", "params": {"to": spec, "event": {"type": "PING", "tag": tg2}}}
                     if delay:
                         prm["delay"] = delay
                         if rng.random() < 0.6:
                             prm["id"] = rng.choice(("s1", "s2"))
                     act = {"type": "xstate.sendTo", "params": prm}
-                acts = [act] if sender.parent is None else wrap_for(sender, [act])
+                pair = [act, act2] if (spec != "parent-send" and delay == 0) else [act]
+                acts = pair if sender.parent is None else wrap_for(sender, pair)
                 if acts:
                     push({"type": "CMD", "tag": new_tag(), "acts": acts}, t)
                 continue
